@@ -25,7 +25,8 @@ import struct
 import subprocess
 import sys
 
-HEADLINE = "TwistedProps.C15.stream_accounting / connectionLost_at_most_once / no_data_after_connectionLost"
+HEADLINE = ("TwistedProps.C15.stream_accounting / connectionLost_at_most_once / no_data_after_connectionLost / "
+            "loseConnection_clean_close / loseConnection_delivers_written / halfClose_clean_close / abortConnection_close")
 RULE = ("sim: schedules over {write, writeSequence, loseConnection, loseWriteConnection, abortConnection, pause, resume, "
         "readiness reports (IN/OUT/HUP bits, kernel byte counts incl. 0), delayed calls} on a fake kernel with tiny SEND_LIMIT/"
         "recv size/queue capacity; disciplined templates (lose / half-close with reply / abort, either side) with noise, "
@@ -36,9 +37,16 @@ ASSUMES = [
     "the Linux TCP stack and the select/poll/epoll/asyncio doIteration loops refine the kernel + poller of the model "
     "(bounded queue per direction, FIN after data, RST on abort or on close with unread data, POLLHUP only with POLLIN "
     "when registered for reading); the real-socket runs test this refinement on schedule-independent observables only",
-    "one closer: the side that did not initiate the close only closes in reaction to EOF (otherwise TCP itself "
-    "resets the connection and drops data — not a Twisted behaviour)",
-    "no write after the close operation of the same side; protocol callbacks do not raise; no TLS, no producers (C14)",
+    "safety theorems (stream_accounting, prefix, connectionLost at most once, nothing after it): no assumption on the "
+    "schedule at all",
+    "liveness / clean-close theorems: the one-closer discipline, stated as hypotheses of the theorems — schedule = "
+    "pre ++ [loseConnection | loseWriteConnection | abortConnection of side w] ++ post; in pre only w writes, both sides "
+    "may pause/resume, any readiness reports / delayed calls; in post only readiness reports / delayed calls (no "
+    "application call, in particular no write after the close); the other side (both sides for a half-close) is "
+    "reading when the close is issued; a half-closeable protocol reacts to readConnectionLost with loseConnection "
+    "(half-close: with writes, then loseConnection); SEND_LIMIT, recv size and queue capacity > 0 (otherwise TCP itself "
+    "resets the connection or nothing can move — not a Twisted behaviour)",
+    "protocol callbacks do not raise; no TLS, no producers (C14)",
 ]
 TRUSTED = ["harness fake kernel/poller in corr/C15.py (Python twin of kSend/kRecv/kShutWr/kClose/hupCond of the model)",
            "CPython socket module + Linux loopback TCP for the real-socket runs"]
@@ -46,12 +54,20 @@ MANIFEST = {
     "text": "Lean theorems (TwistedProps/C15.lean) over ALL schedules of readiness reports, partial send/recv sizes, delayed "
             "calls and application calls on a model of tcp.Connection + FileDescriptor + _doReadOrWrite/_disconnectSelectable "
             "over a kernel socket pair: delivered bytes are always a prefix of the bytes written, connectionLost at most once "
-            "per side, nothing delivered after it; under the one-closer discipline every reason is ConnectionDone and the "
-            "reader has everything when it is told; at quiescence both sides were told exactly once. Model tied to the code "
-            "by step-by-step differential runs on a fake kernel and by real loopback runs on four reactors in subprocesses.",
-    "note": "PARTIAL: Linux TCP and the four doIteration loops are assumed to refine the model's kernel/poller; trusts Lean "
-            "kernel, the hand-written model, the harness fake kernel",
-    "technique": "Lean 4 invariants over all schedules + differential tie (fake kernel, real dispatch code) + real-socket runs",
+            "per side, nothing delivered after it (no discipline assumed). Under the one-closer discipline (either side "
+            "closing, any pre-close writes/pauses/readiness noise, any post-close noise): no RST is ever generated, FIN is "
+            "sent only after the flush, the peer closes only after EOF, nothing is discarded, pending bytes imply a "
+            "registered writer; a progress measure strictly decreases over every fair round, so runFair reaches quiescence, "
+            "where both protocols were told exactly once — ConnectionDone/ConnectionDone with received = accepted in both "
+            "directions after loseConnection or a completed half-close (with reply), the closer's accepted bytes being "
+            "exactly the concatenation of the schedule's write()/writeSequence() arguments, ConnectionAborted on the aborting "
+            "side and exactly one reason on the other after abortConnection (reader holds a prefix). The same conclusions "
+            "hold in any quiescent state a disciplined schedule reaches. Model tied to the code by step-by-step "
+            "differential runs on a fake kernel and by real loopback runs on four reactors in subprocesses.",
+    "note": "safety and liveness/clean-close halves both proved in Lean; ASSUMED (tested by the real-socket runs, not "
+            "proved): Linux TCP and the four doIteration loops refine the model's kernel/poller; trusts Lean kernel, the "
+            "hand-written model, the harness fake kernel",
+    "technique": "Lean 4 invariants over all schedules + phase invariants and a progress measure under the discipline + differential tie (fake kernel, real dispatch code) + real-socket runs",
     "design_ref": "DESIGN.md §7 C15",
 }
 
